@@ -199,6 +199,12 @@ ConsumerLoop:
 			}
 		}
 	}
+	// Both producers close their channels when the context is done, and a cancelled
+	// iterator read is treated like an exhausted one above: without a match the loop
+	// then ends as if both sides had been read completely. That is not a "false".
+	if lastErr == nil && !res.Allowed && ctx.Err() != nil {
+		lastErr = ctx.Err()
+	}
 	return res, lastErr
 }
 
